@@ -4,6 +4,7 @@ import (
 	"encoding/json"
 	"fmt"
 	"os"
+	"path"
 	"path/filepath"
 	"sort"
 	"strings"
@@ -27,7 +28,8 @@ type c01Case struct {
 	MemLinkFull bool    `json:"memlinkfull"` // synthetic source announces full size for link members
 	DiffNone    bool    `json:"diffnone"`
 	Notify      bool    `json:"notify"`
-	Filter      int     `json:"filter"` // 0 none, 1 rewrite owner to 0:0, 2 rewrite to 1000:1001
+	Filter      int     `json:"filter"` // 0 none, 1 rewrite owner to 0:0, 2 rewrite to 1000:1001, 3 shift both ids by 100000
+	ReadStyle   int     `json:"readstyle,omitempty"` // how the synthetic source's files hand out bytes (MemFS.ReadStyle)
 	Capacity    int     `json:"capacity"`
 	// AbortAt > 0: the prior destination additionally holds the leftovers of an
 	// aborted run - a transfer of the same source whose stream broke when the
@@ -63,33 +65,39 @@ func genC01(t *rapid.T) *c01Case {
 	c.Merge = rapid.IntRange(0, 3).Draw(t, "merge") == 0
 	c.MemSrc = rapid.Bool().Draw(t, "memsrc")
 	c.MemLinkFull = rapid.Bool().Draw(t, "memlinkfull")
+	c.ReadStyle = rapid.IntRange(0, 3).Draw(t, "readstyle")
 	c.DiffNone = rapid.IntRange(0, 3).Draw(t, "diffnone") == 0
 	c.Notify = rapid.Bool().Draw(t, "notify")
-	c.Filter = rapid.SampledFrom([]int{0, 0, 1, 2}).Draw(t, "filter")
+	c.Filter = rapid.SampledFrom([]int{0, 0, 1, 2, 3}).Draw(t, "filter")
 	c.Capacity = rapid.SampledFrom([]int{0, 1, 8, 64}).Draw(t, "cap")
 	if !c.Merge && rapid.IntRange(0, 3).Draw(t, "aborted") == 0 {
 		c.AbortAt = rapid.IntRange(1, 2*len(c.Src.Nodes)+6).Draw(t, "abortat")
 	}
 	// identity-based differencing presupposes that equal identity means equal bytes
-	switch c.Filter {
-	case 1:
-		h.AlignIdentical(c.Src, c.Dst, true, 0, 0)
-	case 2:
-		h.AlignIdentical(c.Src, c.Dst, true, 1000, 1001)
-	default:
-		h.AlignIdentical(c.Src, c.Dst, false, 0, 0)
-	}
+	h.AlignIdenticalBy(c.Src, c.Dst, func(u, g uint32) (uint32, uint32) { return ownerRewrite(c.Filter, u, g) })
 	return c
 }
 
-func ownerFilter(mode int) fsutil.FilterFunc {
+// ownerRewrite is what receiver filter `mode` does to an owner: 1 and 2 set a
+// constant, 3 shifts both ids as an id-mapping receiver does (applying it
+// twice is not the same as applying it once).
+func ownerRewrite(mode int, uid, gid uint32) (uint32, uint32) {
 	switch mode {
 	case 1:
-		return func(p string, st *types.Stat) bool { st.Uid, st.Gid = 0, 0; return true }
+		return 0, 0
 	case 2:
-		return func(p string, st *types.Stat) bool { st.Uid, st.Gid = 1000, 1001; return true }
+		return 1000, 1001
+	case 3:
+		return uid + 100000, gid + 100000
 	}
-	return nil
+	return uid, gid
+}
+
+func ownerFilter(mode int) fsutil.FilterFunc {
+	if mode == 0 {
+		return nil
+	}
+	return func(p string, st *types.Stat) bool { st.Uid, st.Gid = ownerRewrite(mode, st.Uid, st.Gid); return true }
 }
 
 // partition compares hard-link partitions: files grouped by (dev,inode) in the
@@ -173,12 +181,7 @@ func convergenceErrs(after, before h.Snap, src *h.Tree, filter int, keepOld ...f
 		}
 	}
 	for _, e := range want {
-		switch filter {
-		case 1:
-			e.Uid, e.Gid = 0, 0
-		case 2:
-			e.Uid, e.Gid = 1000, 1001
-		}
+		e.Uid, e.Gid = ownerRewrite(filter, e.Uid, e.Gid)
 	}
 	newInode := func(p string) bool {
 		b, ok := before[p]
@@ -209,6 +212,12 @@ func c01Check(env *h.Env, c *c01Case) error {
 	f, dstDir, err := syncSetup(env, c.Src, c.Dst, c.MemSrc, c.MemLinkFull)
 	if err != nil {
 		return err
+	}
+	if m, ok := f.(*h.MemFS); ok {
+		m.ReadStyle = c.ReadStyle
+		if c.ReadStyle != 0 {
+			env.Class(fmt.Sprintf("readstyle-%d", c.ReadStyle))
+		}
 	}
 	opt := fsutil.ReceiveOpt{Merge: c.Merge, Filter: ownerFilter(c.Filter)}
 	if c.DiffNone {
@@ -308,12 +317,7 @@ func mergeErrs(after, before h.Snap, src, dst *h.Tree, filter int) *h.Errs {
 	_, survive := h.Overlay(dst, src)
 	wantSrc := h.ExpectedSnap(src)
 	for _, e := range wantSrc {
-		switch filter {
-		case 1:
-			e.Uid, e.Gid = 0, 0
-		case 2:
-			e.Uid, e.Gid = 1000, 1001
-		}
+		e.Uid, e.Gid = ownerRewrite(filter, e.Uid, e.Gid)
 	}
 	var errs h.Errs
 	want := h.Snap{}
@@ -405,12 +409,20 @@ func unprivNormalize(t *h.Tree) {
 	if t == nil {
 		return
 	}
+	parent := map[string]bool{}
+	for _, n := range t.Nodes {
+		parent[path.Dir(n.Path)] = true
+	}
 	for i := range t.Nodes {
 		n := &t.Nodes[i]
 		n.Uid, n.Gid = 1000, 1000
 		switch n.Kind {
 		case h.KDir:
-			n.Perm |= 0o700 // an unprivileged transfer cannot work inside a directory it cannot write
+			if parent[n.Path] {
+				n.Perm |= 0o700 // an unprivileged transfer cannot work inside a directory it cannot write
+			} else {
+				n.Perm |= 0o500 // an empty one only has to be listed
+			}
 			n.Perm &^= 0o7000
 		case h.KFile:
 			n.Perm |= 0o400 // the sender must be able to read it
@@ -425,6 +437,9 @@ func genC01Unpriv(t *rapid.T) *c01UnprivCase {
 	for i := range c.Src.Nodes {
 		if n := &c.Src.Nodes[i]; n.Kind == h.KFile && rapid.IntRange(0, 2).Draw(t, fmt.Sprintf("ro%d", i)) == 0 {
 			n.Perm = rapid.SampledFrom([]uint32{0o444, 0o400, 0o4555, 0o2555, 0o6755, 0o4755, 0o555}).Draw(t, fmt.Sprintf("roperm%d", i))
+		} else if n.Kind == h.KDir && rapid.IntRange(0, 2).Draw(t, fmt.Sprintf("rod%d", i)) == 0 {
+			// read-only directories (kept only where the directory stays empty)
+			n.Perm = rapid.SampledFrom([]uint32{0o555, 0o500, 0o550}).Draw(t, fmt.Sprintf("rodperm%d", i))
 		}
 	}
 	switch rapid.IntRange(0, 2).Draw(t, "dstmode") {
@@ -439,6 +454,20 @@ func genC01Unpriv(t *rapid.T) *c01UnprivCase {
 	}
 	unprivNormalize(c.Src)
 	unprivNormalize(c.Dst)
+	if c.Dst != nil {
+		// emptying an old directory needs write permission on it as well, and the
+		// receiver gives a directory its new mode before it gets to the old children
+		old := map[string]bool{}
+		for _, n := range c.Dst.Nodes {
+			old[path.Dir(n.Path)] = true
+		}
+		for i := range c.Src.Nodes {
+			if n := &c.Src.Nodes[i]; n.Kind == h.KDir && old[n.Path] {
+				n.Perm |= 0o700
+			}
+		}
+		c.Src.Normalize()
+	}
 	h.AlignIdentical(c.Src, c.Dst, false, 0, 0)
 	c.DiffNone = rapid.IntRange(0, 3).Draw(t, "diffnone") == 0
 	c.Notify = rapid.Bool().Draw(t, "notify")
